@@ -284,6 +284,17 @@ class Sym:
       e2 = dict(env)
       e2[s.targets[0].id] = self._val(s.value, env)
       return [('fall', e2)]
+    if isinstance(s, ast.Assign) and len(s.targets) == 1 and isinstance(
+        s.targets[0], ast.Subscript) and isinstance(s.targets[0].value, ast.Name) and \
+        env.get(s.targets[0].value.id, ('',))[0] == 'dict' and isinstance(
+            s.targets[0].slice, ast.Constant) and isinstance(s.targets[0].slice.value, str):
+      # options['key'] = key  on a dict literal built in this function
+      e2 = dict(env)
+      d_ = env[s.targets[0].value.id]
+      k_ = s.targets[0].slice.value
+      e2[s.targets[0].value.id] = ('dict', [kv for kv in d_[1] if kv[0] != k_] +
+                                   [(k_, self._val(s.value, env))])
+      return [('fall', e2)]
     if isinstance(s, ast.If):
       c = self._cond(s.test, env)
       outs = []
@@ -701,7 +712,11 @@ def check(model, rep, tier):
     if ok:
       # advance on every iteration: last statement of the body, unconditional
       ok = pat.match('_F_ = _F_.f_back', lp.body[-1], b) is not None
-      brks = [x for x in ast.walk(lp) if isinstance(x, ast.Break)]
+      # (an early `return <frame>` inside the loop is `result = <frame>; break`)
+      loop_rets = [x for x in ast.walk(lp) if isinstance(x, ast.Return)]
+      brks = [x for x in ast.walk(lp) if isinstance(x, ast.Break)] + loop_rets
+      ok = ok and all(x.value is not None and core.norm(x.value) == b['_F_']
+                      for x in loop_rets)
       conts = [x for x in ast.walk(lp) if isinstance(x, ast.Continue)]
       facts['breaks'] = len(brks)
       ok = ok and not conts
@@ -732,7 +747,8 @@ def check(model, rep, tier):
       res = [r for r in res if r]
       ok = ok and len(res) == 1
       if ok:
-        rets = [r for r in ast.walk(ff.node) if isinstance(r, ast.Return)]
+        rets = [r for r in ast.walk(ff.node) if isinstance(r, ast.Return)
+                and not any(r is x for x in loop_rets)]
         ok = len(rets) == 1 and core.norm(rets[0].value) == res[0]['_R_']
   rep.check(ok, 'BI-FRAME', '%s:full-stack-walk' % ff.site,
             'the frame search must visit every frame up to the stack bottom, '
